@@ -18,7 +18,7 @@ from mc.params import fill, pat_tensor
 PROPERTY = "C07"
 RULE = (
     "7 coupling classes x feature counts 2..5 (UMNN: 2..3) x EVERY non-trivial subset as mask (2^n - 2) in the default encoding; for 3 features additionally every mask x "
-    "encodings {0/1 ints, -1/+1 floats, -2.5/0.5 floats, uint8 tensor, tuple} and (<=1 deviation) {image inputs, context, unconditional transform, box spline without tails, conv/residual conditioners with dropout or batch-norm, MLP conditioner, general scale activation}; "
+    "encodings {0/1 ints, -1/+1 floats, -2.5/0.5 floats, uint8 tensor, tuple, float tensor, numpy array; tensor and array masks are flipped in place after construction} and (<=1 deviation) {image inputs, context, unconditional transform, box spline without tails, conv/residual conditioners with dropout or batch-norm, MLP conditioner, general scale activation}; "
     "both directions; parameter pattern pat1 (conditioner outputs capped), init, and the conditioner's last bias at -300 / +300; every call under its own RNG state. Non-trivial = every case (the mask has both kinds of features by construction)."
 )
 ASSUMPTIONS = [
@@ -29,7 +29,7 @@ ASSUMPTIONS = [
 
 CLASSES = ["AdditiveCouplingTransform", "AffineCouplingTransform", "PiecewiseLinearCouplingTransform", "PiecewiseQuadraticCouplingTransform", "PiecewiseCubicCouplingTransform",
            "PiecewiseRationalQuadraticCouplingTransform", "UMNNCouplingTransform"]
-ENC = ["int01", "pm1", "float_mixed", "uint8", "tuple"]
+ENC = ["int01", "pm1", "float_mixed", "uint8", "tuple", "float_tensor", "numpy"]
 
 
 def bounds(tier, seed):
@@ -47,6 +47,10 @@ def encode(bits, enc):
         return torch.tensor([int(b) for b in bits], dtype=torch.uint8)
     if enc == "tuple":
         return tuple(int(b) for b in bits)
+    if enc == "float_tensor":
+        return torch.tensor([1.0 if b else -1.0 for b in bits])
+    if enc == "numpy":
+        return np.array([1 if b else 0 for b in bits], dtype=np.int64)
     raise ValueError(enc)
 
 
@@ -152,6 +156,24 @@ def check_case(case):
         h.remove()
         V("forward", "raises %s" % type(e).__name__, "forward raised %s: %s" % (type(e).__name__, str(e)[:100]))
         return out
+    # the mask is read at construction: editing the caller's mask object afterwards (as SimpleRealNVP does with `mask *= -1`
+    # between its layers) must not re-mask the layer that was already built
+    mobj = cfg["mask"]
+    if isinstance(mobj, (torch.Tensor, np.ndarray)):
+        if isinstance(mobj, torch.Tensor) and mobj.dtype == torch.uint8:
+            mobj.copy_(1 - mobj)
+        else:
+            mobj *= -1
+            if isinstance(mobj, np.ndarray):
+                mobj += 1  # 0/1 -> 1/0
+        try:
+            y_b, ld_b = fwd(x)
+            if not (bits_equal(y_b, y) and bits_equal(ld_b, ld)):
+                V("construct", "layer follows later edits of the caller's mask object", "mask %r given as %s: after flipping the caller's mask object in place, forward changed by %.3g" % (encode(bits, enc) if enc != "numpy" else bits, enc, float((y_b - y).abs().max())))
+        except Exception as e:
+            V("construct", "layer follows later edits of the caller's mask object", "after flipping the caller's mask object in place forward raised %s" % type(e).__name__)
+        seen.clear()
+        y, ld = fwd(x)
     # (b) the conditioner saw exactly the identity features (and the context)
     def seen_ok(args, ref_ident, label):
         if len(args) < 1 or args[0].shape != ref_ident.shape or not torch.equal(args[0], ref_ident):
